@@ -11,6 +11,7 @@ package main
 
 import (
 	"fmt"
+	"math"
 	"reflect"
 	"strings"
 )
@@ -108,6 +109,7 @@ type larg struct {
 	fvals      []float64 // lkScalar: further values (quick-return triggers) crossed with every fault
 	bval       bool
 	init       func(e *lenv, i int) int   // int vector contents
+	inits      []func(e *lenv, i int) int // int vector contents: variants enumerated inside the case (e.v["#init"])
 	fill       func(e *lenv, s []float64) // float slice contents (default: generic)
 	noNeg      bool                       // lkDim: no "-1" fault (the routine documents a relation instead of a sign)
 	skipQuery  bool                       // lkLd: not checked in a workspace query (documented in the code only)
@@ -423,6 +425,10 @@ func (lm *lmethod) describe(in []reflect.Value) string {
 		x := in[i]
 		switch x.Kind() {
 		case reflect.Slice:
+			if a.kind == lkIVec && len(a.inits) > 0 && x.Len() <= 8 {
+				fmt.Fprintf(&sb, "%s=%v", a.name, x.Interface())
+				break
+			}
 			fmt.Fprintf(&sb, "len(%s)=%d", a.name, x.Len())
 		case reflect.Uint8:
 			if u := x.Uint(); u > 32 && u < 127 {
@@ -446,10 +452,15 @@ const (
 	lwMin          // lwork = documented minimum
 	lwOpt          // lwork = value returned by the workspace query
 	lwQuery        // lwork = -1
+	// intermediate legal values: every lwork >= min must be accepted
+	lwMinPlus1  // min+1
+	lwMid       // (min+opt)/2
+	lwOptMinus1 // opt-1
+	lwOptPlus3  // opt+3
 )
 
 // runBase runs one valid base (flags, dims in e.v; ld deltas; lwork mode) and its faults.
-func (lm *lmethod) runBase(t failer, e *lenv, ldDelta []int, mode int, pairs bool, st *lstats) {
+func (lm *lmethod) runBase(t failer, e *lenv, ldDelta []int, mode int, faults, pairs bool, st *lstats) {
 	r := lm.r
 	// derived integers, leading dimensions, lwork
 	for _, a := range r.args {
@@ -472,7 +483,7 @@ func (lm *lmethod) runBase(t failer, e *lenv, ldDelta []int, mode int, pairs boo
 			e.v["lwork"] = min
 		case lwQuery:
 			e.v["lwork"] = -1
-		case lwOpt:
+		default:
 			e.v["lwork"] = -1
 			in, _, _ := lm.build(e, nil)
 			_, pe := invoke(lm.m, in)
@@ -482,10 +493,27 @@ func (lm *lmethod) runBase(t failer, e *lenv, ldDelta []int, mode int, pairs boo
 					opt = int(w[0])
 				}
 			}
-			if opt == min && !r.noMinLwork {
-				return // same base as lwMin
+			// the legal values in a fixed order; a mode whose value coincides with an earlier one is skipped
+			order := []int{lwMin, lwMinPlus1, lwMid, lwOptMinus1, lwOpt, lwOptPlus3}
+			vals := map[int]int{lwMin: min, lwMinPlus1: min + 1, lwMid: (min + opt) / 2, lwOptMinus1: opt - 1, lwOpt: opt, lwOptPlus3: opt + 3}
+			if r.noMinLwork {
+				// the documented minimum is only necessary: values below the query optimum are not claimed legal
+				order = []int{lwOpt, lwOptPlus3}
 			}
-			e.v["lwork"] = opt
+			v, legal := vals[mode], false
+			for _, m := range order {
+				if m == mode {
+					legal = true
+					break
+				}
+				if vals[m] == v {
+					return
+				}
+			}
+			if !legal || v < min {
+				return
+			}
+			e.v["lwork"] = v
 		}
 	}
 	in, regs, lens := lm.build(e, nil)
@@ -529,6 +557,22 @@ func (lm *lmethod) runBase(t failer, e *lenv, ldDelta []int, mode int, pairs boo
 			t.FailClass("write-outside-slice", "%s: memory outside the slice %s (len=cap=%d) was written", lm.describe(in), r.args[i].name, lens[i])
 		}
 	}
+	if _, hasLwork := r.pos["lwork"]; pe == nil && hasLwork {
+		// every legal lwork must give a usable result: the routines with a workspace
+		// argument get well conditioned input, so their outputs are finite
+		for i, reg := range regs {
+			a := &r.args[i]
+			if reg == nil || a.scratch() || (a.kind != lkMat && a.kind != lkVec) {
+				continue
+			}
+			for j, x := range in[i].Interface().([]float64) {
+				if math.IsNaN(x) || math.IsInf(x, 0) {
+					t.FailClass("valid-call-nonfinite-output", "%s: %s[%d] = %v after a valid call on finite, well conditioned input", lm.describe(in), a.name, j, x)
+					break
+				}
+			}
+		}
+	}
 	restoreAll()
 
 	// 2. guard pages: all slices end-aligned, all start-aligned, and for at most
@@ -567,6 +611,9 @@ func (lm *lmethod) runBase(t failer, e *lenv, ldDelta []int, mode int, pairs boo
 	}
 
 	// 3. single faults
+	if !faults {
+		return
+	}
 	empty := lm.isEmpty(e)
 	var fs []lfault
 	add := func(f lfault) { fs = append(fs, f) }
@@ -781,8 +828,12 @@ func (lm *lmethod) buildPlaced(e *lenv, place func(k int) bool) (in []reflect.Va
 			}
 			if p == I {
 				s := sl.Interface().([]int)
+				ini := a.init
+				if len(a.inits) > 0 {
+					ini = a.inits[e.v["#init"]%len(a.inits)]
+				}
 				for j := range s {
-					s[j] = a.init(e, j)
+					s[j] = ini(e, j)
 				}
 			} else if p == Bo {
 				s := sl.Interface().([]bool)
